@@ -199,7 +199,7 @@ def connect_raw(port: int, rcvbuf: int | None = None, timeout: float = 20.0) -> 
 
 
 def tls_fetch(port: int, request: bytes, reader: str = "fast", rcvbuf: int | None = None, rng=None, ctx: ssl.SSLContext | None = None,
-              timeout: float = 60.0, sink=None, stall=None, stalls: int = 1) -> dict:
+              timeout: float = 60.0, sink=None, stall=None, stalls: int = 1, after_request=None) -> dict:
     """One request over TLS with a plain blocking client; the response goes to `sink(bytes)`.
 
     reader: fast (large reads) | slow (1 byte per read, small pauses; larger reads after 60 000 reads)
@@ -219,6 +219,8 @@ def tls_fetch(port: int, request: bytes, reader: str = "fast", rcvbuf: int | Non
             return {"eof": "handshake:" + tls_peer._errkind(e), "version": None, "n": 0}
         version = s.version()
         s.sendall(request)
+        if after_request is not None:
+            after_request(s)          # e.g. send a stray line in a later TLS record, or let time pass on the server's clock
         reads = 0
         eof = "clean"
         stalled = 0
